@@ -341,9 +341,16 @@ def _d4(chk, fb):
         chk.proved("D4b", f.key, "table-maps-name-to-position", f.loc(fills[0]), "%s = %s" % (key, val))
     elif fills:
         chk.refuted("D4b", f.key, "table-maps-name-to-position", f.loc(fills[0]), "table entry '%s = %s' does not map a selected name to its position" % (key, val))
+    sub_ = local_inits(f)
     for arr in ("der1_", "der2_"):
-        rs = [n for n in f.calls() if n["callee"]["name"] == "resize" and render(f.obj(n)) == arr and render(f.args(n)[0]) == "variables_.size()"]
-        (chk.proved if rs else chk.refuted)("D4b", f.key, "slots-sized:" + arr, f.loc(), "%s.resize(variables_.size())" % arr if rs else "%s is not resized to the number of selected variables" % arr)
+        allrs = [n for n in f.calls() if n["callee"]["name"] in ("resize", "assign") and render(f.obj(n)) == arr]
+        rs = [n for n in allrs if render(f.args(n)[0], sub_) in ("variables_.size()", "variables.size()")]
+        if rs:
+            chk.proved("D4b", f.key, "slots-sized:" + arr, f.loc(), "%s.resize(variables_.size())" % arr)
+        elif allrs or any(n["k"] == "BinaryOperator" and n["op"] == "=" and render(kids(n)[0]) == arr for n in f.all_nodes()):
+            chk.unknown("D4b", f.key, "slots-sized:" + arr, f.loc(), "%s is sized by '%s', which is not recognised as the number of selected variables" % (arr, render(f.args(allrs[0])[0], sub_) if allrs else "an assignment"))
+        else:
+            chk.refuted("D4b", f.key, "slots-sized:" + arr, f.loc(), "%s is never re-sized when the selection of variables changes" % arr)
 
 
 def _d5_d6(chk, fb):
@@ -415,24 +422,63 @@ def _d5_d6(chk, fb):
             if stepw:
                 # retry handler: every step update flips the sign
                 bad = []
+                unsure = []
+
+                def flips(op, rhs):
+                    """True: the new step has the opposite sign; False: same sign; None: not recognised"""
+                    rhs = strip(rhs)
+                    if rhs["k"] == "ConditionalOperator" and op == "=":
+                        a_, b_ = flips("=", kids(rhs)[1]), flips("=", kids(rhs)[2])
+                        if a_ is True and b_ is True:
+                            return True
+                        if a_ is False or b_ is False:
+                            return False
+                        return None
+                    lit = lambda z: z["k"] in ("IntegerLiteral", "FloatingLiteral") or (z["k"] == "UnaryOperator" and z.get("op") == "-" and strip(kids(z)[0])["k"] in ("IntegerLiteral", "FloatingLiteral"))
+                    val = lambda z: float(z["val"]) if z["k"] in ("IntegerLiteral", "FloatingLiteral") else -float(strip(kids(z)[0])["val"])
+                    if op == "=":
+                        t = render(rhs)
+                        if t in ("-h", "(-h)"):
+                            return True
+                        if rhs["k"] == "BinaryOperator" and rhs["op"] in ("/", "*"):
+                            l_, r_ = strip(kids(rhs)[0]), strip(kids(rhs)[1])
+                            if render(l_) == "h" and lit(r_):
+                                return val(r_) < 0
+                            if render(l_) in ("-h", "(-h)") and lit(r_):
+                                return val(r_) > 0
+                        if t == "h":
+                            return False
+                        return None
+                    if op in ("/=", "*="):
+                        if lit(rhs):
+                            return val(rhs) < 0
+                        return None
+                    return None
                 for x in stepw:
-                    rhs = strip(kids(x)[1])
-                    neg = (x["op"] == "=" and render(rhs) in ("-h",)) or (x["op"] in ("/=", "*=") and ((rhs["k"] == "UnaryOperator" and rhs["op"] == "-") or (rhs["k"] in ("IntegerLiteral", "FloatingLiteral") and float(rhs["val"]) < 0)))
-                    if not neg:
+                    fl = flips(x["op"], kids(x)[1])
+                    if fl is False:
                         bad.append(x)
+                    elif fl is None:
+                        unsure.append(x)
                 # and a bounded number of tries
                 bounded = any(x["k"] == "BreakStmt" for x in walk(h))
                 if bad:
                     chk.refuted("D5", f.key, "retry-flips-side", f.loc(bad[0]), "a retry after a constraint hit updates the step with '%s', which keeps probing on the same side: at a bound every retry fails and the derivatives come back NaN" % render(bad[0]),
                                 witness={"input": "a constrained variable on its bound"})
+                elif unsure:
+                    chk.unknown("D5", f.key, "retry-flips-side", f.loc(unsure[0]), "step update '%s' not in a recognised form" % render(unsure[0]))
                 elif not bounded:
                     chk.refuted("D5", f.key, "retry-bounded", f.loc(h), "retry loop has no bound on the number of tries")
                 else:
                     chk.proved("D5", f.key, "retry-flips-side", f.loc(h), "%d step updates, all sign-flipping; bounded by a break" % len(stepw))
             else:
                 probes = [x for x in walk(h) if is_call(x) and x["callee"]["name"] == "setParameters"]
+                # probes made through a local lambda / helper that receives the abscissa
+                viahelper = [x for x in walk(h) if is_call(x) and x["callee"]["name"] in ("operator()",) and f.args(x) and strip(f.args(x)[0])["k"] == "BinaryOperator" and strip(f.args(x)[0])["op"] in ("+", "-")]
+                viahelper += [x for x in walk(h) if is_call(x) and x["callee"].get("inrepo") and x["callee"]["name"] not in ("setParameters", "setValue", "getValue") and f.args(x)
+                              and strip(f.args(x)[0])["k"] == "BinaryOperator" and strip(f.args(x)[0])["op"] in ("+", "-") and "double" in (strip(f.args(x)[0]).get("ty") or "")]
                 ders = [x for x in walk(h) if x["k"] == "BinaryOperator" and x["op"] == "=" and render(kids(x)[0]).startswith(("der1_[", "der2_["))]
-                if probes and len(ders) >= 2:
+                if (probes or viahelper) and len(ders) >= 2:
                     # one-sided: all probes of the handler on one side of the value
                     signs = set()
                     for x in walk(h):
@@ -440,12 +486,18 @@ def _d5_d6(chk, fb):
                             a = strip(f.args(x)[0])
                             if a["k"] == "BinaryOperator" and a["op"] in ("+", "-"):
                                 signs.add(a["op"])
+                    for x in viahelper:
+                        signs.add(strip(f.args(x)[0])["op"])
                     if len(signs) == 1:
                         chk.proved("D5", f.key, "one-sided-formula", f.loc(h), "handler probes on the '%s' side only and assigns both derivatives" % list(signs)[0])
-                    else:
+                    elif len(signs) == 2:
                         chk.refuted("D5", f.key, "one-sided-formula", f.loc(h), "the fallback handler probes on both sides of the point (%s): it can hit the same constraint again" % sorted(signs))
+                    else:
+                        chk.unknown("D5", f.key, "one-sided-formula", f.loc(h), "probe abscissae of the handler not recognised")
+                elif not any(is_call(x) for x in walk(h)) and not ders:
+                    chk.refuted("D5", f.key, "one-sided-formula", f.loc(h), "the fallback handler neither retries nor computes one-sided derivatives: a constraint hit leaves the derivatives of this variable unset")
                 else:
-                    chk.refuted("D5", f.key, "one-sided-formula", f.loc(h), "the fallback handler neither retries nor computes one-sided derivatives")
+                    chk.unknown("D5", f.key, "one-sided-formula", f.loc(h), "fallback handler not in a recognised form")
         # probes of the first section inside a try
         for lp in [n for n in walk(f.body) if n["k"] == "ForStmt"]:
             if not any(render(kids(x)[0]).startswith("der1_[") for x in walk(lp) if x["k"] == "BinaryOperator" and x["op"] == "="):
